@@ -5,6 +5,7 @@ package zzverifc13
 import (
 	"reflect"
 	"sort"
+	"strconv"
 
 	yaml2 "gopkg.in/yaml.v2"
 
@@ -160,6 +161,20 @@ mirrorPool:
         prefix: /
   servers:
   - url: http://127.0.0.1:9098
+`, `
+name: f1
+kind: Proxy
+serverMaxBodySize: 100000
+pools:
+- servers:
+  - url: http://127.0.0.1:9095
+  serverMaxBodySize: 1000
+  timeout: 1s
+  memoryCache:
+    expiration: 10s
+    maxEntryBytes: 4096
+    codes: [200, 404]
+    methods: [GET, HEAD]
 `},
 	"RateLimiter": {`
 name: f1
@@ -479,4 +494,70 @@ func (g *Gen) GenDocT(kind string, t reflect.Type) map[string]interface{} {
 		}
 	}
 	return doc
+}
+
+// Inherited / overridable fields. A Proxy pool without its own serverMaxBodySize
+// inherits the filter-level one; memoryCache, compression, timeout and
+// failureCodes interact with the effective value. ProxyInheritDoc enumerates the
+// product (filter-level value x main-pool value x candidate-pool value x cache x
+// compression x failureCodes) by index, so that a run covers it systematically.
+var inheritVals = []interface{}{nil, int64(-1), int64(0), int64(10), int64(100000)}
+
+// ProxyInheritCombos is the size of the enumeration.
+const ProxyInheritCombos = 5 * 5 * 2 * 2 * 2 * 2
+
+// ProxyInheritDoc builds combination k.
+func ProxyInheritDoc(k int) map[string]interface{} {
+	fv := inheritVals[k%5]
+	pv := inheritVals[(k/5)%5]
+	cache := (k/25)%2 == 1
+	comp := (k/50)%2 == 1
+	fcodes := (k/100)%2 == 1
+	cv := inheritVals[((k/200)%2)*1] // candidate pool: absent or -1
+	mc := func() map[string]interface{} {
+		return map[string]interface{}{"expiration": "10s", "maxEntryBytes": int64(4096),
+			"codes": []interface{}{int64(200)}, "methods": []interface{}{"GET"}}
+	}
+	srv := func(port int) []interface{} {
+		return []interface{}{map[string]interface{}{"url": "http://127.0.0.1:" + strconv.Itoa(port)}}
+	}
+	main := map[string]interface{}{"servers": srv(9095), "loadBalance": map[string]interface{}{"policy": "roundRobin"}}
+	cand := map[string]interface{}{"servers": srv(9097), "filter": map[string]interface{}{"headers": map[string]interface{}{
+		"X-Test": map[string]interface{}{"exact": "a"}}}}
+	if pv != nil {
+		main["serverMaxBodySize"] = pv
+	}
+	if cv != nil {
+		cand["serverMaxBodySize"] = cv
+	}
+	if cache {
+		main["memoryCache"] = mc()
+		cand["memoryCache"] = mc()
+	}
+	if fcodes {
+		main["failureCodes"] = []interface{}{int64(200), int64(503)}
+		main["timeout"] = "1s"
+	}
+	doc := map[string]interface{}{"name": "f1", "kind": "Proxy", "pools": []interface{}{main, cand}}
+	if fv != nil {
+		doc["serverMaxBodySize"] = fv
+	}
+	if comp {
+		doc["compression"] = map[string]interface{}{"minLength": int64(10)}
+	}
+	return doc
+}
+
+// ProxyReqs are requests that make the stubbed back end answer a cacheable 200 with a body
+// (twice: Store, then Load), a streamed (unknown length) body, a failure status and a transport error,
+// through the main pool and through the candidate pool of ProxyInheritDoc.
+func ProxyReqs() []Req {
+	return []Req{
+		{Method: "GET", Path: "/cache"}, {Method: "GET", Path: "/cache"},
+		{Method: "GET", Path: "/cache", Headers: [][2]string{{"X-Test", "a"}}}, {Method: "GET", Path: "/cache", Headers: [][2]string{{"X-Test", "a"}}},
+		{Method: "GET", Path: "/stream"}, {Method: "GET", Path: "/stream", Headers: [][2]string{{"X-Test", "a"}, {"Accept-Encoding", "gzip"}}},
+		{Method: "GET", Path: "/cache", Headers: [][2]string{{"Cache-Control", "no-cache"}, {"Accept-Encoding", "identity"}}},
+		{Method: "POST", Path: "/cache", Body: "hello"},
+		{Method: "GET", Path: "/503"}, {Method: "GET", Path: "/fail"}, {Method: "GET", Path: "/empty"},
+	}
 }
